@@ -1532,10 +1532,24 @@ func (x *Exec) modTargets(c *Contract, st *State) []modTarget {
 			engineFail("modifies %q of %s.%s: want <param>.<field>", m, c.Pkg, c.Key)
 		}
 		pn, fn := m[:i], m[i+1:]
-		v, ok := st.names[pn]
-		t, ok2 := st.names["$type:"+pn].(types.Type)
-		if !ok || !ok2 {
-			engineFail("modifies %q of %s.%s: %s is not a parameter", m, c.Pkg, c.Key, pn)
+		var v Value
+		var t types.Type
+		if pv, ok := st.names[pn]; ok {
+			v = pv
+			t, _ = st.names["$type:"+pn].(types.Type)
+		} else {
+			// an object expression over the parameters, evaluated in the state before the call
+			pe, err := parser.ParseExpr(pn)
+			if err != nil {
+				engineFail("modifies %q of %s.%s: %v", m, c.Pkg, c.Key, err)
+			}
+			save := x.contract
+			x.contract = true
+			v, t = x.eval(pe, st)
+			x.contract = save
+		}
+		if v == nil || t == nil {
+			engineFail("modifies %q of %s.%s: cannot resolve %s", m, c.Pkg, c.Key, pn)
 		}
 		owner := t
 		if p, ok := owner.Underlying().(*types.Pointer); ok {
